@@ -677,6 +677,7 @@ impl Monitor for StateMonitor {
                     "term_with_more_than_30_ancestors",
                     "term_with_more_than_60_ancestors",
                     "term_with_more_than_10_parents",
+                    "term_with_more_than_30_parents",
                     "several_roots",
                     "disconnected_singleton",
                     "redundant_edge",
